@@ -75,6 +75,25 @@ class C10(E1Prop):
     def next_op(self, w, rng, step, nsteps):
         tier = getattr(self, 'tier', 'quick')
         maxp = 2 if tier == 'quick' else 5
+        if step == 0 and w.use_queue and rng.random() < 0.25:
+            # story: a multi-target PR sits in the queue and its queue
+            # builds end in a non-green state on every version; then the
+            # same events keep coming
+            dests = ops.dest_branches(w.cfg)
+            d = rng.choice(dests[:max(1, len(dests) - 1)])
+            self.script = [
+                {'op': 'open_pr', 'actor': 'alice',
+                 'src': 'bugfix/TEST-961', 'dst': d, 'kind': 'new'},
+                {'op': 'eval', 'p': 0},
+                {'op': 'ci_green_all', 'which': ['src', 'w']},
+                {'op': 'eval', 'p': 0},
+                {'op': 'ci_green_all', 'which': ['q'],
+                 'state': rng.choice(['FAILED', 'FAILED', 'STOPPED'])},
+                {'op': 'probe', 'pick': rng.randrange(10 ** 9),
+                 'nmax': 4 if tier == 'quick' else 0}]
+            for o in self.script:
+                o['dt'] = rng.choice([1, 5, 30])
+            self.nprobes += 1
         if step >= 3 and self.nprobes < maxp and (
                 rng.random() < 0.15 or step == nsteps - 1):
             self.nprobes += 1
